@@ -265,4 +265,313 @@ Qed.
 
 Lemma eqv_sound : forall F c st a b, all_hold c st F -> eqv F asz a b = true -> oval c a = oval c b.
 Proof. intros. eapply equiv_sound; eassumption. Qed.
+
+(* ------------------------------------------------------------------ shapes of the modelled loads and stores *)
+Lemma store_space_op : forall op s, store_space op = Some s -> op = store_op s /\ is_cell_sp s = true.
+Proof.
+  intros op s H. unfold store_space in H.
+  destruct (op =s "mstore") eqn:E1; [apply seqb_eq in E1; inversion H; subst; split; reflexivity|].
+  destruct (op =s "sstore") eqn:E2; [apply seqb_eq in E2; inversion H; subst; split; reflexivity|].
+  destruct (op =s "tstore") eqn:E3; [apply seqb_eq in E3; inversion H; subst; split; reflexivity|discriminate].
+Qed.
+Lemma load_space_op : forall op s, load_space op = Some s -> op = load_op s /\ is_cell_sp s = true.
+Proof.
+  intros op s H. unfold load_space in H.
+  destruct (op =s "mload") eqn:E1; [apply seqb_eq in E1; inversion H; subst; split; reflexivity|].
+  destruct (op =s "sload") eqn:E2; [apply seqb_eq in E2; inversion H; subst; split; reflexivity|].
+  destruct (op =s "tload") eqn:E3; [apply seqb_eq in E3; inversion H; subst; split; reflexivity|discriminate].
+Qed.
+
+Lemma shape_load : forall s, is_cell_sp s = true ->
+  shape_of (load_op s) = mkSh [mkSR s (PArg a0) (SzC (width s))] [] [] [] true false false.
+Proof. intros [] H; try discriminate; reflexivity. Qed.
+Lemma shape_store : forall s, is_cell_sp s = true ->
+  shape_of (store_op s) = mkSh [] [mkSR s (PArg a1) (SzC (width s))] [] [] true false false.
+Proof. intros [] H; try discriminate; reflexivity. Qed.
+Lemma store_not_ctl : forall s, is_cell_sp s = true -> is_in (store_op s) CTL_OPS = false /\ is_in (store_op s) HALT_OPS = false.
+Proof. intros [] H; try discriminate; split; reflexivity. Qed.
+
+Lemma sp_eqb_refl : forall s, sp_eqb s s = true. Proof. destruct s; reflexivity. Qed.
+
+Lemma in_width : forall s p i, 0 <= i < width s -> in_cr (mkCR s p (width s)) s (p + i) = true.
+Proof.
+  intros s p i H. unfold in_cr. cbn [cr_sp cr_lo cr_len]. rewrite sp_eqb_refl. cbn [andb].
+  apply andb_true_iff. split; [apply Z.leb_le; lia | apply Z.ltb_lt; lia].
+Qed.
+
+(* ------------------------------------------------------------------ the shape of a step *)
+Lemma step_generic : forall i c, is_in (i_op i) CTL_OPS = false -> is_in (i_op i) HALT_OPS = false ->
+  step X i c =
+    let a := map (oval (cv c)) (i_args i) in
+    let sh := shape_of (i_op i) in
+    let r := X (i_op i) a (if sh_vol sh then ct c else 0) (view sh a (cs c)) in
+    if sh_fail sh && o_fail r then SHalt "trap" [] zero_store
+    else SNext (mkC (bind (cv c) (i_outs i) (o_outs r)) (merge sh a r (cs c)) (ct c + 1)).
+Proof.
+  intros i c H1 H2. unfold step.
+  rewrite (is_in_false_not _ _ H1 "jmp") by (cbn; auto).
+  rewrite (is_in_false_not _ _ H1 "jnz") by (cbn; auto).
+  rewrite (is_in_false_not _ _ H1 "djmp") by (cbn; auto 6).
+  rewrite H2.
+  rewrite (is_in_false_not _ _ H1 "assert") by (cbn; auto 6).
+  rewrite (is_in_false_not _ _ H1 "assert_unreachable") by (cbn; auto 8).
+  reflexivity.
+Qed.
+
+Lemma step_ctl : forall i c, is_in (i_op i) CTL_OPS = true ->
+  match step X i c with
+  | SNext c' | SJump _ c' => c' = mkC (cv c) (cs c) (ct c + 1)
+  | SHalt _ _ _ => True
+  end.
+Proof.
+  intros i c H. unfold step.
+  destruct (i_op i =s "jmp") eqn:E1.
+  { destruct (i_args i) as [|[v|x|l] [|? ?]]; cbn; auto. }
+  destruct (i_op i =s "jnz") eqn:E2.
+  { destruct (i_args i) as [|cond [|[v|x|l] [|[v2|x2|l2] [|? ?]]]]; cbn; auto. }
+  destruct (i_op i =s "djmp") eqn:E3.
+  { destruct (labels_of (i_args i)); cbn; auto. }
+  destruct (is_in (i_op i) HALT_OPS) eqn:E4; [exact I|].
+  destruct (i_op i =s "assert") eqn:E5.
+  { destruct (hd 0 (map (oval (cv c)) (i_args i)) =? 0); cbn; auto. }
+  destruct (i_op i =s "assert_unreachable") eqn:E6.
+  { destruct (hd 0 (map (oval (cv c)) (i_args i)) =? 0); cbn; auto. }
+  exfalso. unfold is_in, CTL_OPS in H. cbn in H. rewrite E1, E2, E3, E5, E6 in H. discriminate.
+Qed.
+
+Definition continues (r : sres) (c' : cfg) : Prop := r = SNext c' \/ exists l, r = SJump l c'.
+
+Lemma step_post : forall i c c', continues (step X i c) c' ->
+  (forall x, ~ In x (i_outs i) -> cv c' x = cv c x) /\
+  (forall s k, wr (wshape (i_op i)) (map (oval (cv c)) (i_args i)) s k = false -> cs c' s k = cs c s k) /\
+  (wf_store (cs c) -> wf_store (cs c')).
+Proof.
+  intros i c c' H.
+  destruct (is_in (i_op i) CTL_OPS) eqn:C.
+  - pose proof (step_ctl i c C) as S.
+    assert (c' = mkC (cv c) (cs c) (ct c + 1)) as ->.
+    { destruct H as [H|[l H]]; rewrite H in S; exact S. }
+    cbn [cv cs ct]. split; [intros; reflexivity|]. split; [intros; reflexivity|]. intros; assumption.
+  - destruct (is_in (i_op i) HALT_OPS) eqn:Hh.
+    { exfalso. unfold step in H.
+      rewrite (is_in_false_not _ _ C "jmp") in H by (cbn; auto).
+      rewrite (is_in_false_not _ _ C "jnz") in H by (cbn; auto).
+      rewrite (is_in_false_not _ _ C "djmp") in H by (cbn; auto 6).
+      rewrite Hh in H. destruct H as [H|[l H]]; discriminate. }
+    rewrite (step_generic i c C Hh) in H. cbn zeta in H.
+    unfold wshape. rewrite C.
+    destruct (sh_fail (shape_of (i_op i)) && _) in H; [destruct H as [H|[l H]]; discriminate|].
+    destruct H as [H|[l H]]; [|discriminate]. inversion H; subst c'; clear H. cbn [cv cs ct].
+    split; [intros; apply bind_other; assumption|]. split.
+    + intros s k Wr. unfold merge. rewrite Wr. reflexivity.
+    + apply merge_wf.
+Qed.
+
+Lemma out1_ext : forall op a st st', store_eq st st' -> out1 op a st = out1 op a st'.
+Proof.
+  intros op a st st' H. unfold out1.
+  assert (V : store_eq (view (shape_of op) a st) (view (shape_of op) a st')) by (apply view_ext; intros; apply H).
+  destruct (HX op a 0 _ _ V) as [Ho _]. rewrite Ho. reflexivity.
+Qed.
+
+Lemma out1_ext_rd : forall op a st st', (forall s k, rd (shape_of op) a s k = true -> st s k = st' s k) -> out1 op a st = out1 op a st'.
+Proof.
+  intros op a st st' H. unfold out1.
+  destruct (HX op a 0 _ _ (view_ext _ _ _ _ H)) as [Ho _]. rewrite Ho. reflexivity.
+Qed.
+
+Lemma oval_unmentioned : forall c c' outs o, (forall x, ~ In x outs -> c' x = c x) ->
+  (forall x, In x outs -> is_var x o = false) -> oval c' o = oval c o.
+Proof.
+  intros c c' outs [v|y|l] Hc Hm; cbn; try reflexivity.
+  rewrite Hc; [reflexivity|]. intro Hin. specialize (Hm y Hin). cbn in Hm. rewrite N.eqb_refl in Hm. discriminate.
+Qed.
+
+Lemma vals_unmentioned : forall c c' outs l, (forall x, ~ In x outs -> c' x = c x) ->
+  (forall x, In x outs -> existsb (is_var x) l = false) -> map (oval c') l = map (oval c) l.
+Proof.
+  intros c c' outs l Hc Hm. apply map_ext_in. intros o Ho. apply (oval_unmentioned c c' outs o); [assumption|].
+  intros x Hx. specialize (Hm x Hx). destruct (is_var x o) eqn:E; [|reflexivity]. exfalso.
+  assert (existsb (is_var x) l = true) by (apply existsb_exists; exists o; split; assumption). congruence.
+Qed.
+
+(* ------------------------------------------------------------------ facts survive instructions that do not touch them *)
+Lemma wr_clear_all : forall F sh iargs a s k, sp_written sh s = false ->
+  forallb (fun w : sp * memloc => negb (sp_eqb (fst w) s)) (wlocs F asz sh iargs) = true -> wr sh a s k = false.
+Proof.
+  intros F sh iargs a s k H1 H2. unfold wr. unfold sp_written in H1. rewrite H1. cbn [orb].
+  apply not_true_is_false. intro E. apply existsb_exists in E. destruct E as [r [Hr Hin]].
+  unfold in_cr in Hin. apply andb_true_iff in Hin. destruct Hin as [Hin _]. apply andb_true_iff in Hin. destruct Hin as [Hin _].
+  cbn [conc_range cr_sp] in Hin.
+  rewrite forallb_forall in H2. specialize (H2 (sr_sp r, sym_loc F asz iargs r)).
+  unfold wlocs in H2. specialize (H2 (in_map _ _ _ Hr)). cbn [fst] in H2. rewrite Hin in H2. discriminate.
+Qed.
+
+Lemma wr_clear_range : forall F c st sh iargs gargs r' s k, all_hold c st F ->
+  range_clear true F asz sh (wlocs F asz sh iargs) gargs r' = true ->
+  in_cr (conc_range (map (oval c) gargs) r') s k = true -> wr sh (map (oval c) iargs) s k = false.
+Proof.
+  intros F c st sh iargs gargs r' s k HF H Hin. unfold range_clear in H. apply andb_true_iff in H. destruct H as [H1 H2].
+  destruct (sym_loc_sound F c st gargs r' s k HF Hin) as [Sp' Ad'].
+  unfold wr. unfold sp_written in H1. rewrite Sp' in H1. apply negb_true_iff in H1. rewrite H1. cbn [orb].
+  apply not_true_is_false. intro E. apply existsb_exists in E. destruct E as [r [Hr Hin2]].
+  destruct (sym_loc_sound F c st iargs r s k HF Hin2) as [Sp Ad].
+  rewrite forallb_forall in H2. specialize (H2 (sr_sp r, sym_loc F asz iargs r)).
+  unfold wlocs in H2. specialize (H2 (in_map _ _ _ Hr)). cbn [fst snd] in H2.
+  rewrite Sp, Sp', sp_eqb_refl in H2. cbn [negb orb] in H2.
+  exact (locs_disjoint_sound _ _ k H2 Ad Ad').
+Qed.
+
+Lemma survives_sound : forall F i c c' g, all_hold (cv c) (cs c) F -> continues (step X i c) c' -> In g F ->
+  survives true F asz (i_outs i) (wshape (i_op i)) (wlocs F asz (wshape (i_op i)) (i_args i)) g = true ->
+  holds (cv c') (cs c') g.
+Proof.
+  intros F i c c' g HF Hst Hg S. destruct (step_post i c c' Hst) as [Hv [Hs _]].
+  set (sh := wshape (i_op i)) in *. set (a := map (oval (cv c)) (i_args i)) in *.
+  unfold survives in S. apply andb_true_iff in S. destruct S as [M R]. apply negb_true_iff in M.
+  assert (Hm : forall x, In x (i_outs i) -> existsb (is_var x) (fact_ops g) = false).
+  { intros x Hx. destruct (existsb (is_var x) (fact_ops g)) eqn:E; [|reflexivity].
+    assert (existsb (mentions g) (i_outs i) = true) by (apply existsb_exists; exists x; split; assumption). congruence. }
+  pose proof (vals_unmentioned (cv c) (cv c') (i_outs i) (fact_ops g) Hv Hm) as Vals.
+  (* cells read by g are not written *)
+  assert (Hcell : forall s k,
+            (in_sps s (fst (fact_reads g)) = true \/
+             exists ar, In ar (snd (fact_reads g)) /\ in_cr (conc_range (map (oval (cv c)) (fst ar)) (snd ar)) s k = true) ->
+            cs c' s k = cs c s k).
+  { intros s k Hrd. apply Hs. fold sh. fold a.
+    apply orb_true_iff in R. destruct R as [R|R].
+    - apply andb_true_iff in R. destruct R as [R1 R2]. unfold wr.
+      destruct (sh_wall sh); [|discriminate]. cbn [in_sps existsb orb].
+      unfold wlocs in R1. destruct (sh_w sh); [reflexivity|discriminate].
+    - apply andb_true_iff in R. destruct R as [R1 R2]. destruct Hrd as [Hrd|[ar [Har Hin]]].
+      + unfold in_sps in Hrd. apply existsb_exists in Hrd. destruct Hrd as [s' [Hs' E]]. apply sp_eqb_eq in E. subst s'.
+        rewrite forallb_forall in R1. specialize (R1 s Hs'). apply andb_true_iff in R1. destruct R1 as [R1a R1b].
+        apply negb_true_iff in R1a. exact (wr_clear_all F sh (i_args i) a s k R1a R1b).
+      + rewrite forallb_forall in R2. specialize (R2 ar Har).
+        exact (wr_clear_range F (cv c) (cs c) sh (i_args i) (fst ar) (snd ar) s k HF R2 Hin). }
+  specialize (HF g Hg). destruct g as [v op args|s p v|x]; cbn [holds] in HF |- *.
+  - destruct HF as [Ro HF]. split; [exact Ro|]. cbn [fact_ops map] in Vals. inversion Vals as [[V1 V2]].
+    rewrite V1, V2. rewrite <- HF. apply out1_ext_rd. intros s k Rd. apply Hcell. cbn [fact_reads fst snd].
+    unfold rd in Rd. apply orb_true_iff in Rd. destruct Rd as [Rd|Rd]; [left; exact Rd|right].
+    apply existsb_exists in Rd. destruct Rd as [r [Hr Hin]]. exists (args, r). split; [apply in_map; exact Hr|exact Hin].
+  - destruct HF as [Cs HF]. split; [exact Cs|]. cbn [fact_ops map] in Vals. inversion Vals as [[V1 V2]].
+    intros j Hj. rewrite V1, V2. rewrite <- (HF j Hj). apply Hcell. right. cbn [fact_reads fst snd].
+    exists ([p], mkSR s (PArg a0) (SzC (width s))). split; [left; reflexivity|]. cbn [fst snd map conc_range sr_sp sr_ptr sr_size aget a0 nth].
+    apply in_width. exact Hj.
+  - cbn [fact_ops map] in Vals. inversion Vals as [V1]. rewrite V1. exact HF.
+Qed.
+
+(* ------------------------------------------------------------------ loads, stores and the cells they touch *)
+Lemma rd_load : forall s p i, is_cell_sp s = true -> 0 <= i < width s -> rd (shape_of (load_op s)) [p] s (p + i) = true.
+Proof.
+  intros s p i Hs Hi. rewrite (shape_load s Hs). unfold rd. apply orb_true_iff. right.
+  cbn [sh_r existsb]. apply orb_true_iff. left. exact (in_width s p i Hi).
+Qed.
+
+Lemma out1_load : forall s p st, is_cell_sp s = true ->
+  out1 (load_op s) [p] st = dec s (fun i => view (shape_of (load_op s)) [p] st s (p + i)) mod W.
+Proof. intros s p st Hs. unfold out1. rewrite (ex_load X A asz HE s Hs). reflexivity. Qed.
+
+Lemma load_cell : forall s p st, is_cell_sp s = true -> wf_store st ->
+  forall i, 0 <= i < width s -> st s (p + i) = enc s (out1 (load_op s) [p] st) i.
+Proof.
+  intros s p st Hs Hwf i Hi. rewrite (out1_load s p st Hs).
+  set (b := fun j => view (shape_of (load_op s)) [p] st s (p + j)).
+  assert (Hb : forall j, 0 <= j < width s -> b j = st s (p + j)).
+  { intros j Hj. subst b. cbn beta. unfold view. rewrite (rd_load s p j Hs Hj). reflexivity. }
+  destruct s; try discriminate; cbn [dec enc width] in *.
+  - assert (R : forall j, 0 <= j < 32 -> 0 <= b j < 256) by (intros j Hj; rewrite (Hb j Hj); apply Hwf).
+    destruct (enc_dec b R) as [B1 B2]. rewrite Z.mod_small by exact B1. rewrite (B2 i Hi). symmetry. apply Hb. exact Hi.
+  - assert (i = 0) by lia. subst i. rewrite (Hb 0 Hi). symmetry. apply Z.mod_small. apply Hwf.
+  - assert (i = 0) by lia. subst i. rewrite (Hb 0 Hi). symmetry. apply Z.mod_small. apply Hwf.
+Qed.
+
+Lemma cell_load : forall s p st w, is_cell_sp s = true -> 0 <= w < W ->
+  (forall i, 0 <= i < width s -> st s (p + i) = enc s w i) -> out1 (load_op s) [p] st = w.
+Proof.
+  intros s p st w Hs Hw Hc. rewrite (out1_load s p st Hs).
+  set (b := fun j => view (shape_of (load_op s)) [p] st s (p + j)).
+  assert (Hb : forall j, 0 <= j < width s -> b j = enc s w j).
+  { intros j Hj. subst b. cbn beta. unfold view. rewrite (rd_load s p j Hs Hj). apply Hc. exact Hj. }
+  destruct s; try discriminate; cbn [dec enc width] in *.
+  - unfold dec32. rewrite (decn_ext 32 b (enc_byte w)) by (intros j Hj; apply Hb; cbn in Hj; lia).
+    pose proof (dec_enc w Hw) as D. unfold dec32 in D. rewrite D. apply Z.mod_small. exact Hw.
+  - rewrite (Hb 0) by lia. apply Z.mod_small. exact Hw.
+  - rewrite (Hb 0) by lia. apply Z.mod_small. exact Hw.
+Qed.
+
+Lemma ro_ok_inv : forall op, ro_ok op = true ->
+  sh_w (shape_of op) = [] /\ sh_wall (shape_of op) = [] /\ sh_vol (shape_of op) = false /\ sh_fail (shape_of op) = false
+  /\ is_in op HALT_OPS = false /\ is_in op CTL_OPS = false.
+Proof.
+  intros op H. unfold ro_ok in H. repeat (apply andb_true_iff in H; destruct H as [H ?]).
+  repeat match goal with Hn : negb _ = true |- _ => apply negb_true_iff in Hn end.
+  destruct (sh_w (shape_of op)); [|discriminate]. destruct (sh_wall (shape_of op)); [|discriminate]. auto 10.
+Qed.
+
+Lemma ro_step : forall i c, ro_ok (i_op i) = true ->
+  exists st', step X i c = SNext (mkC (bind (cv c) (i_outs i)
+       (o_outs (X (i_op i) (map (oval (cv c)) (i_args i)) 0 (view (shape_of (i_op i)) (map (oval (cv c)) (i_args i)) (cs c)))))
+       st' (ct c + 1)) /\ store_eq st' (cs c).
+Proof.
+  intros i c H. destruct (ro_ok_inv _ H) as [W1 [W2 [V [Fl [Hh Hc]]]]].
+  rewrite (step_generic i c Hc Hh). cbn zeta. rewrite V, Fl. cbn [andb].
+  eexists. split; [reflexivity|]. apply no_writes_merge; assumption.
+Qed.
+
+Lemma new_facts_sound : forall i c c' g, wf_store (cs c) -> continues (step X i c) c' -> In g (new_facts i) ->
+  holds (cv c') (cs c') g.
+Proof.
+  intros i c c' g Hwf Hst Hg. unfold new_facts in Hg.
+  destruct (i_outs i) as [|x [|? ?]] eqn:Ho; [| |destruct Hg].
+  - (* no output: store or assert *)
+    destruct (store_space (i_op i)) as [s|] eqn:Ss.
+    + destruct (i_args i) as [|v [|p [|? ?]]] eqn:Ha; try destruct Hg as [].
+      destruct Hg as [<-|[]]. destruct (store_space_op _ _ Ss) as [Eop Hs].
+      destruct (store_not_ctl s Hs) as [Hc Hh]. rewrite <- Eop in Hc, Hh.
+      rewrite (step_generic i c Hc Hh) in Hst. cbn zeta in Hst. rewrite Eop in Hst. rewrite (shape_store s Hs) in Hst.
+      cbn [sh_fail sh_vol andb] in Hst. destruct Hst as [Hst|[l Hst]]; [|discriminate]. inversion Hst; subst c'; clear Hst.
+      rewrite Ho, Ha. cbn [cv cs bind holds]. split; [exact Hs|]. intros j Hj.
+      unfold merge. cbn [map].
+      assert (Wr : wr (mkSh [] [mkSR s (PArg a1) (SzC (width s))] [] [] true false false) [oval (cv c) v; oval (cv c) p] s (oval (cv c) p + j) = true).
+      { unfold wr. apply orb_true_iff. right. cbn [sh_w existsb]. apply orb_true_iff. left. exact (in_width s _ j Hj). }
+      rewrite Wr. cbn [sh_must orb andb].
+      apply (ex_store X A asz HE s Hs); [apply oval_range|exact Hj].
+    + destruct (i_op i =s "assert") eqn:Ea; [|destruct Hg].
+      destruct (i_args i) as [|x [|? ?]] eqn:Ha; try destruct Hg as []. destruct Hg as [<-|[]].
+      cbn [holds]. unfold step in Hst. apply seqb_eq in Ea. rewrite Ea in Hst. cbn in Hst. rewrite Ha in Hst. cbn [map hd] in Hst.
+      destruct (oval (cv c) x =? 0) eqn:E.
+      * destruct Hst as [Hst|[l Hst]]; discriminate.
+      * destruct Hst as [Hst|[l Hst]]; [|discriminate]. inversion Hst; subst c'. cbn [cv]. apply Z.eqb_neq. exact E.
+  - (* one output *)
+    destruct (ro_ok (i_op i) && negb (existsb (is_var x) (i_args i))) eqn:Hr; [|destruct Hg].
+    apply andb_true_iff in Hr. destruct Hr as [Ro Nm]. apply negb_true_iff in Nm.
+    destruct (ro_step i c Ro) as [st' [Est Hst']]. rewrite Est in Hst.
+    destruct Hst as [Hst|[l Hst]]; [|discriminate]. inversion Hst; subst c'; clear Hst. cbn [cv cs].
+    rewrite Ho.
+    set (a := map (oval (cv c)) (i_args i)) in *.
+    set (outs := o_outs (X (i_op i) a 0 (view (shape_of (i_op i)) a (cs c)))) in *.
+    assert (Va : map (oval (bind (cv c) [x] outs)) (i_args i) = a).
+    { apply (vals_unmentioned (cv c) _ [x]); [intros y Hy; apply bind_other; exact Hy|].
+      intros y [<-|[]]. exact Nm. }
+    assert (Vx : oval (bind (cv c) [x] outs) (OVar x) = out1 (i_op i) a (cs c)).
+    { cbn [oval]. rewrite bind_one. unfold out1. fold outs. apply Z.mod_mod. pose proof W_pos; lia. }
+    assert (Hfe : holds (bind (cv c) [x] outs) st' (FEq (OVar x) (i_op i) (i_args i))).
+    { cbn [holds]. split; [exact Ro|]. rewrite Va, Vx. apply out1_ext. exact Hst'. }
+    destruct Hg as [<-|Hg]; [exact Hfe|].
+    destruct (load_space (i_op i)) as [s|] eqn:Ls; [|destruct Hg].
+    destruct (i_args i) as [|p [|? ?]] eqn:Ha; try destruct Hg as []. destruct Hg as [<-|[]].
+    destruct (load_space_op _ _ Ls) as [Eop Hs].
+    cbn [holds]. split; [exact Hs|]. intros j Hj.
+    cbn [map] in Va. inversion Va as [Vp]. rewrite Vp. rewrite Vx. rewrite Hst'.
+    subst a. cbn [map]. rewrite Eop. apply load_cell; assumption.
+Qed.
+
+Lemma facts_step_sound : forall F i c c', all_hold (cv c) (cs c) F -> wf_store (cs c) -> continues (step X i c) c' ->
+  all_hold (cv c') (cs c') (facts_step true F asz i).
+Proof.
+  intros F i c c' HF Hwf Hst g Hg. unfold facts_step in Hg. apply in_app_or in Hg. destruct Hg as [Hg|Hg].
+  - eapply new_facts_sound; eassumption.
+  - apply filter_In in Hg. destruct Hg as [Hin Hs]. eapply survives_sound; eassumption.
+Qed.
 End Facts.
